@@ -1063,6 +1063,8 @@ func genSecAuto(g *Gen) {
 }
 
 func genSecSign(g *Gen) {
+	// op lines go to memory; at the end they are replayed on a real wallet and every `sign` line gets its oracle tokens
+	defer secOracleCapture(g)()
 	nHist := g.Scale(140, 1500)
 	for h := 0; h < nHist; h++ {
 		if h%9 == 0 {
